@@ -241,7 +241,9 @@ def gen_case(rnd, tier: str, i: Any) -> Dict[str, Any]:
 def fixed_cases(tier: str):
     if tier != "thorough":
         return [{"kind": "enum", "n": n, "tmax": 2} for n in (1, 2, 3)]
-    return [{"kind": "enum", "n": n, "tmax": 3} for n in (1, 2, 3, 4)]
+    return [{"kind": "enum", "n": n, "tmax": 3} for n in (1, 2, 3, 4)] + [
+        # row ids beyond int16 (parents > 32767 in the saved stack columns)
+        {"kind": "callgraph", "trace": gen_sim.huge_trace(11, p_zero=0.1), "trace2": None}]
 
 
 def _run_builder(who: str, fn, rows: List[List[int]], res: core.CaseResult, do_meta: bool) -> None:  # noqa: ANN001
